@@ -727,4 +727,15 @@ theorem markBorder_get (g : Array VV) (hs : g.size = ni * nj) (hi : 1 ≤ ni) (h
 
 end
 
+/-- value of `(g.map f)` at an in-grid cell -/
+theorem getC_map (ni nj : Nat) (g : Array VV) (f : VV → VV) (hs : g.size = ni * nj) (p : Nat × Nat)
+    (hp : InB ni nj p) : getC ni (g.map f) p = f (getC ni g p) := by
+  unfold getC
+  have h := idx_lt hp.1 hp.2
+  rw [Array.getD_eq_getD_getElem?, Array.getD_eq_getD_getElem?, Array.getElem?_map]
+  have : g[idx ni p.1 p.2]? = some (g[idx ni p.1 p.2]'(by rw [hs]; exact h)) := by
+    simp [hs, h]
+  rw [this]; rfl
+
+
 end C18
